@@ -19,7 +19,8 @@ def readyUpto (s : St) : Nat :=
 /-- retired workers the replace thread has still to replace -/
 def pending (s : St) : List Nat := (match s.rpc with | .join wid => [wid] | _ => []) ++ s.replQ.filterMap id
 
-def ExitedAll (l : List Worker) (wid : Nat) : Prop := ∀ w ∈ l, w.wid = wid → w.pc = .exited
+/-- the worker(s) with this wid have left their loop for good (exited, or — `Cfg.joinTimeout` — only `end()` left) -/
+def ExitedAll (l : List Worker) (wid : Nat) : Prop := ∀ w ∈ l, w.wid = wid → gone w.pc = true
 
 structure LInv (s : St) : Prop where
   nodup : (s.workers.map (·.wid)).Nodup
@@ -36,18 +37,23 @@ structure LInv (s : St) : Prop where
   notStarted : ∀ w ∈ s.workers, w.pc = .notStarted → (∃ i, s.cpc = .enterStart i ∧ i ≤ w.wid) ∨ s.rpc = .start w.wid
   rStarting : ∀ nw, s.rpc = .start nw → ∀ w ∈ s.workers, w.wid = nw → w.pc = .notStarted
   ready : s.cfg.waitReady = true → ∀ w ∈ s.workers, w.wid < readyUpto s → w.bf = true
-  listed : ∀ w ∈ s.workers, w.pc ≠ .exited → w.wid ∈ s.procs
+  listed : ∀ w ∈ s.workers, gone w.pc = false → w.wid ∈ s.procs
   pendNodup : (pending s).Nodup
   pend : ∀ wid ∈ pending s, wid ∈ s.procs ∧ ExitedAll s.workers wid
-  joined : ∀ i, s.cpc = .exitJoin i → ∀ j < i, ∀ wid, s.procs[j]? = some wid → ExitedAll s.workers wid
-  done : s.cpc = .done → ∀ wid ∈ s.procs, ExitedAll s.workers wid
+  -- the joins of `__exit__` wait for the exit only without a join timeout
+  joined : ∀ i, s.cpc = .exitJoin i → ∀ j < i, ∀ wid, s.procs[j]? = some wid → s.cfg.joinTimeout = false →
+    ExitedAll s.workers wid
+  done : s.cpc = .done → ∀ wid ∈ s.procs, s.cfg.joinTimeout = false → ExitedAll s.workers wid
 
-theorem ExitedAll_upd {l : List Worker} {wid : Nat} {w w' : Worker} (h : ExitedAll l wid) (hw : w ∈ l) (hne : w.pc ≠ .exited)
-    (hwid : w'.wid = w.wid) : ExitedAll (upd w.wid w' l) wid := by
+theorem ExitedAll_upd {l : List Worker} {wid : Nat} {w w' : Worker} (h : ExitedAll l wid) (hw : w ∈ l)
+    (hne : gone w.pc = true → gone w'.pc = true) (hwid : w'.wid = w.wid) : ExitedAll (upd w.wid w' l) wid := by
   intro x hx hxw
   rcases mem_upd.1 hx with ⟨rfl, _⟩ | ⟨hx', _⟩
-  · exact absurd (h w hw (by rw [← hwid, hxw])) hne
+  · exact hne (h w hw (by rw [← hwid, hxw]))
   · exact h x hx' hxw
+
+theorem not_gone_imp {w w' : Worker} (h : gone w.pc = false) : gone w.pc = true → gone w'.pc = true := by
+  intro h'; rw [h] at h'; cases h'
 
 theorem readyUpto_congr {s s' : St} (h1 : s'.cpc = s.cpc) (h2 : s'.cfg = s.cfg) : readyUpto s' = readyUpto s := by
   unfold readyUpto; rw [h1, h2]
@@ -62,7 +68,7 @@ theorem LInv_stepW {s s' : St} {wid : Nat} (hI : LInv s) (h : stepW s wid = some
     · exact Or.inl rfl
     · exact Or.inr hx
   have hex : ∀ k, ExitedAll s.workers k → ExitedAll s'.workers k := by
-    intro k hk; rw [hf.workers]; exact ExitedAll_upd hk hwm hn2 hwid
+    intro k hk; rw [hf.workers]; exact ExitedAll_upd hk hwm hf.gone hwid
   constructor
   · rw [hf.workers, upd_wids _ hwid]; exact hI.nodup
   · intro x hx; rw [hf.widCounter]
@@ -97,20 +103,25 @@ theorem LInv_stepW {s s' : St} {wid : Nat} (hI : LInv s) (h : stepW s wid = some
     · exact hI.ready hr x hx hlt
   · intro x hx hne; rw [hf.procs]
     rcases hmem x hx with rfl | ⟨hx, _⟩
-    · rw [hwid]; exact hI.listed w hwm hn2
+    · rw [hwid]; refine hI.listed w hwm ?_
+      cases hgw : gone w.pc
+      · rfl
+      · rw [hf.gone hgw] at hne; cases hne
     · exact hI.listed x hx hne
   · unfold pending; rw [hf.rpc]
-    rcases hf.replQ with hq | ⟨hq, _⟩
+    rcases hf.replQ with hq | ⟨hq, hgg⟩
     · rw [hq]; exact hI.pendNodup
-    · rw [hq, List.filterMap_append, ← List.append_assoc]
+    · skip
+      rw [hq, List.filterMap_append, ← List.append_assoc]
       simp only [List.filterMap_cons, List.filterMap_nil, id]
       rw [List.nodup_append]
       refine ⟨hI.pendNodup, by simp, ?_⟩
       intro a ha b hb; simp at hb; subst hb
       intro hab; subst hab
-      exact hn2 ((hI.pend _ ha).2 w hwm rfl)
+      have := (hI.pend _ ha).2 w hwm rfl
+      rw [hgg.2] at this; cases this
   · intro k hk; rw [hf.procs]
-    have : k ∈ pending s ∨ (k = w.wid ∧ w'.pc = .exited) := by
+    have : k ∈ pending s ∨ (k = w.wid ∧ gone w'.pc = true ∧ gone w.pc = false) := by
       unfold pending at hk ⊢; rw [hf.rpc] at hk
       rcases hf.replQ with hq | ⟨hq, he⟩
       · rw [hq] at hk; exact Or.inl hk
@@ -118,17 +129,17 @@ theorem LInv_stepW {s s' : St} {wid : Nat} (hI : LInv s) (h : stepW s wid = some
         rcases List.mem_append.1 hk with hk | hk
         · exact Or.inl hk
         · simp at hk; exact Or.inr ⟨hk, he⟩
-    rcases this with hk | ⟨rfl, he⟩
+    rcases this with hk | ⟨rfl, he, hgw⟩
     · exact ⟨(hI.pend k hk).1, hex k (hI.pend k hk).2⟩
-    · refine ⟨hI.listed w hwm hn2, ?_⟩
+    · refine ⟨hI.listed w hwm hgw, ?_⟩
       intro x hx hxw
       rcases hmem x hx with rfl | ⟨_, hne⟩
       · exact he
       · exact absurd hxw hne
-  · intro i hi j hj k hk; rw [hf.cpc] at hi; rw [hf.procs] at hk
-    exact hex k (hI.joined i hi j hj k hk)
-  · intro hd k hk; rw [hf.cpc] at hd; rw [hf.procs] at hk
-    exact hex k (hI.done hd k hk)
+  · intro i hi j hj k hk hjt; rw [hf.cpc] at hi; rw [hf.procs] at hk; rw [hf.cfg] at hjt
+    exact hex k (hI.joined i hi j hj k hk hjt)
+  · intro hd k hk hjt; rw [hf.cpc] at hd; rw [hf.procs] at hk; rw [hf.cfg] at hjt
+    exact hex k (hI.done hd k hk hjt)
 
 
 /-- consumer pcs after `__enter__` / `until_all_ready` -/
@@ -152,8 +163,9 @@ theorem LInv_frame {s s' : St} (hI : LInv s) (h1 : s'.cfg = s.cfg) (h2 : s'.work
     (h7 : s'.replQ.filterMap id = s.replQ.filterMap id)
     (hc : s'.cpc = s.cpc ∨ (post s.cpc = true ∧ post s'.cpc = true ∧ (s.rAlive = true → inCall s'.cpc = true) ∧
       ((s'.cpc = .rInitSet ∨ s'.cpc = .rStart) → s.cfg.factory = true) ∧
-      (∀ i, s'.cpc = .exitJoin i → ∀ j < i, ∀ wid, s.procs[j]? = some wid → ExitedAll s.workers wid) ∧
-      (s'.cpc = .done → ∀ wid ∈ s.procs, ExitedAll s.workers wid))) : LInv s' := by
+      (∀ i, s'.cpc = .exitJoin i → ∀ j < i, ∀ wid, s.procs[j]? = some wid → s.cfg.joinTimeout = false →
+        ExitedAll s.workers wid) ∧
+      (s'.cpc = .done → ∀ wid ∈ s.procs, s.cfg.joinTimeout = false → ExitedAll s.workers wid))) : LInv s' := by
   have hp := pending_congr h5 h7
   rcases hc with hc | ⟨p1, p2, c1, c2, c3, c4⟩
   · have hr := readyUpto_congr hc h1
@@ -174,8 +186,8 @@ theorem LInv_frame {s s' : St} (hI : LInv s) (h1 : s'.cfg = s.cfg) (h2 : s'.work
     · rw [h2, h3]; exact hI.listed
     · rw [hp]; exact hI.pendNodup
     · rw [hp, h3, h2]; exact hI.pend
-    · rw [hc, h3, h2]; exact hI.joined
-    · rw [hc, h3, h2]; exact hI.done
+    · rw [hc, h3, h2, h1]; exact hI.joined
+    · rw [hc, h3, h2, h1]; exact hI.done
   · constructor
     · rw [h2]; exact hI.nodup
     · rw [h2, h4]; exact hI.widLt
@@ -196,8 +208,8 @@ theorem LInv_frame {s s' : St} (hI : LInv s) (h1 : s'.cfg = s.cfg) (h2 : s'.work
     · rw [h2, h3]; exact hI.listed
     · rw [hp]; exact hI.pendNodup
     · rw [hp, h3, h2]; exact hI.pend
-    · rw [h3, h2]; exact c3
-    · rw [h3, h2]; exact c4
+    · rw [h3, h2, h1]; exact c3
+    · rw [h3, h2, h1]; exact c4
 
 theorem LInv_stepF {s s' : St} (hI : LInv s) (h : stepF s = some s') : LInv s' := by
   unfold stepF at h
@@ -227,15 +239,16 @@ theorem not_post_contra {c : CPc} (h : post c = true) :
   cases c <;> simp [post] at h ⊢
 
 theorem WInv_start {cfg : Cfg} {w : Worker} (h : WInv cfg w) (hpc : w.pc = .notStarted) : WInv cfg { w with pc := .bfClear } := by
-  obtain ⟨h1, h2, h3, h4, h5, h6⟩ := h
+  obtain ⟨h1, h2, h3, h4, h5, h6, h7⟩ := h
   simp only [hpc] at h1 h2
-  refine ⟨?_, ?_, ?_, ?_, ?_, ?_⟩ <;> dsimp only
+  refine ⟨?_, ?_, ?_, ?_, ?_, ?_, ?_⟩ <;> dsimp only
   · exact h1
   · exact h2
   · exact h3
   · intro q hq; exact ⟨(h4 q hq).1, trivial⟩
   · exact h5
   · intro _; exact h6 (Or.inl hpc)
+  · intro hh; cases hh
 
 theorem LInv_stepR {s s' : St} (hI : LInv s) (h : stepR s = some s') : LInv s' := by
   unfold stepR at h
@@ -360,7 +373,7 @@ theorem LInv_stepR {s s' : St} (hI : LInv s) (h : stepR s = some s') : LInv s' :
         · intro w hw hne
           rcases List.mem_append.1 hw with hw | hw
           · have h1 := hI.listed w hw hne
-            have h2 : w.wid ≠ wid := fun e => hne (hwid.2 w hw e)
+            have h2 : w.wid ≠ wid := fun e => by have := hwid.2 w hw e; rw [hne] at this; cases this
             exact List.mem_map.2 ⟨w.wid, h1, by simp [h2]⟩
           · simp at hw; subst hw
             exact List.mem_map.2 ⟨wid, hwid.1, by simp [mkWorker]⟩
@@ -386,7 +399,7 @@ theorem LInv_stepR {s s' : St} (hI : LInv s) (h : stepR s = some s') : LInv s' :
         simp only [Option.some.injEq] at h; subst h
         obtain ⟨hwm, hwid⟩ := getWorker_some hg
         have hpc : w.pc = .notStarted := hI.rStarting nw hrpc w hwm hwid
-        have hne : w.pc ≠ .exited := by rw [hpc]; simp
+        have hne : gone w.pc = false := by rw [hpc]; rfl
         have hmem : ∀ x, x ∈ upd w.wid { w with pc := .bfClear } s.workers →
             x = { w with pc := .bfClear } ∨ (x ∈ s.workers ∧ x.wid ≠ w.wid) := by
           intro x hx
@@ -394,7 +407,7 @@ theorem LInv_stepR {s s' : St} (hI : LInv s) (h : stepR s = some s') : LInv s' :
           · exact Or.inl rfl
           · exact Or.inr hx
         have hex : ∀ k, ExitedAll s.workers k → ExitedAll (upd w.wid { w with pc := .bfClear } s.workers) k :=
-          fun k hk => ExitedAll_upd hk hwm hne rfl
+          fun k hk => ExitedAll_upd hk hwm (not_gone_imp hne) rfl
         have hp : pending { (setWorker s { w with pc := .bfClear }) with rpc := .get } = pending s := by
           unfold pending; simp [hrpc, setWorker]
         constructor <;> dsimp only [setWorker_workers]
